@@ -69,4 +69,4 @@ def case(world):
         keys.append(knob_key(world))
     if ex.handler.format_errors:
         bump("log_format_errors", ex.handler.format_errors)
-    return {"violations": viol, "stats": stats, "keys": keys, "executions": 1, "sample": small_sample(world, {"outcome": oc}), "virtual_seconds": ex.clock.t - 1000.0}
+    return {"violations": viol, "stats": stats, "keys": keys, "executions": 1, "sample": small_sample(world, {"outcome": oc}), "virtual_seconds": ex.clock.t - ex.clock.t0}
